@@ -215,6 +215,25 @@ func runC03(c *core.Ctx) core.Meta {
 					for _, op := range oc.values {
 						st3.Instances++
 						_, has := t.Lookup(format, op)
+						if !has {
+							// VOP3a and VOP3b share one encoding and opcode space: an opcode
+							// tabled in the sibling format may keep an alias case here (for
+							// instructions built by hand) as long as the sibling's dispatcher
+							// sends the opcode to the same handler
+							sib := map[string]string{"VOP3a": "VOP3b", "VOP3b": "VOP3a"}[format]
+							if _, hasSib := t.Lookup(sib, op); sib != "" && hasSib {
+								if sfd := findFuncDecl(p, a.typ+"."+disp[sib]); sfd != nil {
+									scases, _ := opcodeCases(p, sfd)
+									for _, sc := range scases {
+										for _, sop := range sc.values {
+											if sop == op && strings.Join(sc.callees, ",") == strings.Join(oc.callees, ",") {
+												has = true
+											}
+										}
+									}
+								}
+							}
+						}
 						st3.Ob(has)
 						if !has {
 							c.Report(core.Finding{Rule: "R03.3", Pkg: a.pkg, Func: a.typ + "." + dn, Detail: fmt.Sprintf("case-without-decode-row:%s:%d", format, op), Pos: c.Position(oc.pos), Msg: fmt.Sprintf("%s dispatches opcode %d of format %s to %v, but the decode table has no %s instruction with that opcode: the case is unreachable and the instruction the handler implements is dispatched nowhere", dn, op, format, sortedKeys(uniq), format)})
